@@ -3,7 +3,7 @@
 From Verif Require Export Doc FromType RunC07.
 Local Open Scope nat_scope.
 
-Record Case := { c_opts : Opts; c_budget : nat; c_ty : Ty; c_from_type : Outcome (list SField); c_samples : list Value; c_from_samples : Outcome (list SField) }.
+Record Case := { c_opts : Opts; c_budget : nat; c_overwrites : list (bytes * SField); c_ty : Ty; c_from_type : Outcome (list SField); c_samples : list Value; c_from_samples : Outcome (list SField) }.
 
 Definition res_eqb (m i : Outcome (list SField)) : bool :=
   match m, i with Ok a, Ok c => list_eqb sfield_eqb a c | Err, Err => true | Panic _, Panic _ => true | _, _ => false end.
@@ -14,12 +14,13 @@ Definition is_overwrite_case (c : Case) : bool := match c_ty c, c_samples c with
    case's budget) on the description of the type *)
 Definition corr (c : Case) : bool :=
   if is_overwrite_case c then true
-  else res_eqb (from_samples (c_opts c) [] (c_samples c)) (c_from_samples c)
-       && res_eqb (from_type (c_opts c) [] (c_budget c) (c_ty c)) (c_from_type c).
+  else res_eqb (from_samples (c_opts c) (c_overwrites c) (c_samples c)) (c_from_samples c)
+       && res_eqb (from_type (c_opts c) (c_overwrites c) (c_budget c) (c_ty c)) (c_from_type c).
 (* the documented mapping *)
 Definition oracle (c : Case) : bool :=
   if is_overwrite_case c then true
   else if Nat.ltb (c_budget c) 100 then true        (* reduced budgets are judged by the from_type model only *)
-  else res_eqb (doc_schema (c_opts c) (c_ty c)) (c_from_type c).
+  else match c_overwrites c with _ :: _ => true | [] =>   (* overwrites: judged by the tracer models and the harness *)
+  res_eqb (doc_schema (c_opts c) (c_ty c)) (c_from_type c) end.
 Definition info (cs : list Case) : list N :=
   [N.of_nat (length (filter (fun c => negb (is_overwrite_case c)) cs)); N.of_nat (length (filter is_overwrite_case cs))].
